@@ -30,18 +30,20 @@ Res(ok) == IF ok THEN "ok" ELSE "err"
 PeerCommit == /\ peerH < MaxH /\ peerH' = peerH + 1 /\ UNCHANGED clients
               /\ last' = [act |-> "PeerCommit", res |-> "ok"]
 
-(* content: "valid" | "wrongcons" (consensus state of another client type) | "badname" (rejected at submission) *)
-CreateOK(n, ty, h, ct) == ct = "valid" /\ clients[n] = None
+(* content: "valid" | "altroot" (valid, but the consensus state carries another state root than the counterparty's:   *)
+(* what governance installs is what is stored) | "wrongcons" (consensus state of another client type) | "badname"     *)
+Valid(ct) == ct \in {"valid", "altroot"}
+CreateOK(n, ty, h, ct) == Valid(ct) /\ clients[n] = None
 CreateEff(n, ty, h, ct) == IF CreateOK(n, ty, h, ct) THEN clients' = [clients EXCEPT ![n] = Fresh(ty, h)] ELSE UNCHANGED clients
 
-UpgradeOK(n, ty, h, ct) == ct = "valid" /\ clients[n] # None /\ clients[n].type = ty
+UpgradeOK(n, ty, h, ct) == Valid(ct) /\ clients[n] # None /\ clients[n].type = ty
 UpgradeEff(n, ty, h, ct) ==
   IF ~UpgradeOK(n, ty, h, ct) THEN UNCHANGED clients
   ELSE IF ty = "tss" THEN UNCHANGED clients       \* new key material only
   ELSE clients' = [clients EXCEPT ![n] = [@ EXCEPT !.latest = h, !.cons = @ \cup {h},
                                                     !.meta = IF UpgradeSetsMeta THEN @ \cup {h} ELSE @]]
 
-ToggleOK(n, ty, h, ct) == ct = "valid" /\ clients[n] # None /\ clients[n].type # ty
+ToggleOK(n, ty, h, ct) == Valid(ct) /\ clients[n] # None /\ clients[n].type # ty
 ToggleEff(n, ty, h, ct) == IF ToggleOK(n, ty, h, ct) THEN clients' = [clients EXCEPT ![n] = Fresh(ty, h)] ELSE UNCHANGED clients
 
 (* MsgUpdateClient with the counterparty's real header of height h, signed by s *)
